@@ -1,0 +1,621 @@
+//go:build verif
+
+// Contracts for package main (cmd/whawty-auth), read by /verif/govc (comments only; never compiled).
+package main
+
+/*@
+; ============================ web sessions (C07) ============================================
+
+(spec (boolstr (b Bool)) String (ite b "true" "false"))
+(spec (tokentext (u String) (a Bool) (secs Int)) String (str.++ u ":" (boolstr a) ":" (itoa secs)))
+(spec (wkey (w Int) (aead Int)) String (aeadkey aead))
+
+(func "main.NewWebSessionFactory"
+  (props C07)
+  (use draw)
+  (modifies rnd)
+  (ensures key-is-fresh-draw (=> (= err nil)
+      (and (not (= (. w aesgcm) nil)) (= (aeadkey (. w aesgcm)) (draw (old rnd) 16)) (= rnd (+ (old rnd) 1)))))
+  (ensures lifetime (= (. w lifetime) lifetime)))
+
+(func "(*main.webSessionFactory).sealToken"
+  (props C07)
+  (use draw aead)
+  (requires has-cipher (not (= (. w aesgcm) nil)))
+  (modifies rnd issued)
+  (ensures nonce-is-fresh-draw (=> (= status 200)
+      (and (= (content nonce) (draw (old rnd) 12)) (= rnd (+ (old rnd) 1)))))
+  (ensures sealed (=> (= status 200)
+      (and (= (content enctoken) (sealf (aeadkey (. w aesgcm)) (content nonce) token))
+           (= issued (store (old issued) (aeadkey (. w aesgcm))
+                (store (select (old issued) (aeadkey (. w aesgcm))) (content nonce)
+                  (store (select (select (old issued) (aeadkey (. w aesgcm))) (content nonce)) (content enctoken) true)))))))
+  (ensures failure-issues-nothing (=> (not (= status 200)) (= issued (old issued)))))
+
+(func "(*main.webSessionFactory).openToken"
+  (props C07)
+  (use aead)
+  (requires has-cipher (not (= (. w aesgcm) nil)))
+  (ensures only-issued (=> (= status 200)
+      (and (select (select (select issued (aeadkey (. w aesgcm))) (content nonce)) (content enctoken))
+           (= token (openf (aeadkey (. w aesgcm)) (content nonce) (content enctoken))))))
+  (ensures other-status (or (= status 200) (= status 401))))
+
+(func "(*main.webSessionFactory).splitCheckToken"
+  (props C07)
+  (use decimals itoa)
+  (modifies now)
+  (ensures accepted-shape (=> (= status 200)
+      (exists ((d String))
+        (and (= token (str.++ username ":" (boolstr isAdmin) ":" d))
+             (not (str.contains username ":")) (isdec64 d)
+             (<= 0 (- now (* (atoi d) 1000000000)))
+             (<= (- now (* (atoi d) 1000000000)) (. w lifetime))))))
+  (ensures statuses (or (= status 200) (= status 400) (= status 401)))
+  (ensures rejected-zero (=> (not (= status 200)) (or (= status 400) (= status 401))))
+  (ensures clock (>= now (old now))))
+
+; every ciphertext marked as issued under a key is a Seal output for that key and nonce
+(spec (issuedwf (iss (Array String (Array String (Array String Bool))))) Bool
+  (forall ((k String) (n String) (c String))
+    (! (=> (select (select (select iss k) n) c) (= c (sealf k n (openf k n c)))) :pattern ((select (select (select iss k) n) c)))))
+
+(lemma token-identity (props C07 C06) (by cvc5)
+  (forall ((u String) (b Bool) (s Int) (v String) (a Bool) (d String))
+    (=> (and (= (tokentext u b s) (str.++ v ":" (boolstr a) ":" d))
+             (not (str.contains v ":")) (not (str.contains d ":")) (not (str.contains (itoa s) ":")))
+        (and (= u v) (= b a) (= d (itoa s))))))
+
+(func "(*main.webSessionFactory).Generate"
+  (props C07 C06)
+  (use draw aead b64 itoa)
+  (requires has-cipher (not (= (. w aesgcm) nil)))
+  (requires issued-wf (issuedwf issued))
+  (modifies rnd issued now)
+  (ensures issued-token (=> (= status 200)
+      (let ((k (aeadkey (. w aesgcm))) (n (draw (old rnd) 12)) (pt (tokentext username isAdmin (div now 1000000000))))
+        (and (= rnd (+ (old rnd) 1))
+             (= issued (store (old issued) k (store (select (old issued) k) n (store (select (select (old issued) k) n) (sealf k n pt) true))))
+             (= session (str.++ (b64enc (global "encoding/base64.URLEncoding") n) ":" (b64enc (global "encoding/base64.URLEncoding") (sealf k n pt))))))))
+  (ensures failure-issues-nothing (=> (not (= status 200)) (= issued (old issued))))
+  (ensures issued-wf (issuedwf issued))
+  (ensures clock (>= now (old now))))
+
+(func "(*main.webSessionFactory).Check"
+  (props C07 C06)
+  (use aead b64 decimals itoa)
+  (requires has-cipher (not (= (. w aesgcm) nil)))
+  (modifies now)
+  (ensures accepted-only-issued (=> (= status 200)
+      (exists ((x String) (y String) (d String))
+        (let ((k (aeadkey (. w aesgcm))) (n (b64dec (global "encoding/base64.URLEncoding") x)) (c (b64dec (global "encoding/base64.URLEncoding") y)))
+          (and (= session (str.++ x ":" y)) (not (str.contains x ":"))
+               (b64ok (global "encoding/base64.URLEncoding") x) (b64ok (global "encoding/base64.URLEncoding") y)
+               (select (select (select issued k) n) c)
+               (= (openf k n c) (str.++ username ":" (boolstr isAdmin) ":" d))
+               (not (str.contains username ":")) (isdec64 d)
+               (<= 0 (- now (* (atoi d) 1000000000)))
+               (<= (- now (* (atoi d) 1000000000)) (. w lifetime)))))))
+  (ensures statuses (or (= status 200) (= status 400) (= status 401)))
+  (ensures clock (>= now (old now))))
+*/
+
+/*@
+; ============================ request funnel: Store wrappers (C04) =================================
+; Each wrapper must put exactly its arguments and a fresh reply channel into the request and return what it
+; receives on that channel, in order. That the value received is the one the dispatcher's checked send
+; produced is the channel hand-off assumption (DESIGN 2.13 item 5), stated as trusted-ensures where a caller needs it.
+
+(func "(*main.Store).Authenticate"
+  (props C04 C06)
+  (send "authenticateChan" 0
+    (requires carries-credentials (and (= (. $v username) username) (= (. $v password) password)
+                                       (= (. $v response) (local resCh)) (not (= (. $v response) nil)))))
+  (ensures returns-received (and (= $r0 (. (local res) ok)) (= $r1 (. (local res) isAdmin))
+                                 (= $r2 (. (local res) lastChanged)) (= $r3 (. (local res) err))))
+  (trusted-ensures error-is-denial (props C04 C06) (=> (not (= $r3 nil)) (not $r0))))
+
+(func "(*main.Store).Add"
+  (props C06 C17)
+  (send "addChan" 0
+    (requires carries-arguments (and (= (. $v username) username) (= (. $v password) password) (= (. $v isAdmin) isAdmin)
+                                     (= (. $v response) (local resCh)) (not (= (. $v response) nil)))))
+  (ensures returns-received (= $r0 (. (local res) err))))
+
+(func "(*main.Store).Remove"
+  (props C06)
+  (send "removeChan" 0
+    (requires carries-arguments (and (= (. $v username) username) (= (. $v response) (local resCh)) (not (= (. $v response) nil)))))
+  (ensures returns-received (= $r0 (. (local res) err))))
+
+(func "(*main.Store).Update"
+  (props C06 C17 C12)
+  (send "updateChan" 0
+    (requires carries-arguments (and (= (. $v username) username) (= (. $v password) password)
+                                     (= (. $v response) (local resCh)) (not (= (. $v response) nil)))))
+  (ensures returns-received (= $r0 (. (local res) err))))
+
+(func "(*main.Store).SetAdmin"
+  (props C06)
+  (send "setAdminChan" 0
+    (requires carries-arguments (and (= (. $v username) username) (= (. $v isAdmin) isAdmin)
+                                     (= (. $v response) (local resCh)) (not (= (. $v response) nil)))))
+  (ensures returns-received (= $r0 (. (local res) err))))
+
+(func "(*main.Store).Init"
+  (props C17)
+  (send "initChan" 0
+    (requires carries-arguments (and (= (. $v username) username) (= (. $v password) password)
+                                     (= (. $v response) (local resCh)) (not (= (. $v response) nil)))))
+  (ensures returns-received (= $r0 (. (local res) err))))
+
+(func "(*main.Store).Check"
+  (props C16)
+  (send "checkChan" 0 (requires reply-channel (and (= (. $v response) (local resCh)) (not (= (. $v response) nil)))))
+  (ensures returns-received (= $r0 (. (local res) err))))
+
+(func "(*main.Store).List"
+  (props C06)
+  (send "listChan" 0 (requires reply-channel (and (= (. $v response) (local resCh)) (not (= (. $v response) nil)))))
+  (ensures returns-received (and (= $r0 (. (local res) list)) (= $r1 (. (local res) err)))))
+
+(func "(*main.Store).ListFull"
+  (props C06)
+  (send "listFullChan" 0 (requires reply-channel (and (= (. $v response) (local resCh)) (not (= (. $v response) nil)))))
+  (ensures returns-received (and (= $r0 (. (local res) list)) (= $r1 (. (local res) err)))))
+
+; ============================ HTTP API (C06, C04) ====================================================
+
+(func "main.sendWebResponse"
+  (props C06 C04)
+  (modifies hstatus hwrites)
+  (ensures status (= hstatus (store (old hstatus) w status)))
+  (ensures once (= hwrites (store (old hwrites) w (+ 1 (select (old hwrites) w))))))
+
+(func "main.handleWebBasicAuth"
+  (props C04 C15)
+  (modifies hstatus hwrites)
+  (callsite "(*main.Store).Authenticate" 0
+    (requires exact-credentials (and (= $1 (callresult "(*net/http.Request).BasicAuth" 0 0))
+                                     (= $2 (callresult "(*net/http.Request).BasicAuth" 0 1))
+                                     (callresult "(*net/http.Request).BasicAuth" 0 2))))
+  (ensures accept-iff-store-accepts (= (= (select hstatus w) 200)
+      (and (callresult "(*net/http.Request).BasicAuth" 0 2)
+           (called "(*main.Store).Authenticate" 0)
+           (callresult "(*main.Store).Authenticate" 0 0)
+           (= (callresult "(*main.Store).Authenticate" 0 3) nil))))
+  (ensures responded-once (= (select hwrites w) (+ 1 (select (old hwrites) w)))))
+
+(func "main.handleWebAuthenticate"
+  (props C04 C06)
+  (modifies hstatus hwrites rnd issued now)
+  (requires has-cipher (not (= (. sessions aesgcm) nil)))
+  (requires issued-wf (issuedwf issued))
+  (callsite "(*main.Store).Authenticate" 0
+    (requires exact-credentials (and (= $1 (. (local reqdata) Username)) (= $2 (. (local reqdata) Password))
+                                     (not (= $1 "")) (not (= $2 "")))))
+  (callsite "(*main.webSessionFactory).Generate" 0
+    (requires only-after-successful-login (and (called "(*main.Store).Authenticate" 0)
+        (callresult "(*main.Store).Authenticate" 0 0) (= (callresult "(*main.Store).Authenticate" 0 3) nil)))
+    (requires names-that-user (and (= $1 (. (local reqdata) Username))
+                                   (= $2 (callresult "(*main.Store).Authenticate" 0 1)))))
+  (ensures accept-only-if-store-accepts (=> (= (select hstatus w) 200)
+      (and (called "(*main.Store).Authenticate" 0) (callresult "(*main.Store).Authenticate" 0 0)
+           (= (callresult "(*main.Store).Authenticate" 0 3) nil)
+           (called "(*main.webSessionFactory).Generate" 0) (= (callresult "(*main.webSessionFactory).Generate" 0 0) 200))))
+  (ensures store-accepts-implies-accept (=> (and (called "(*main.Store).Authenticate" 0) (callresult "(*main.Store).Authenticate" 0 0)
+                                                 (= (callresult "(*main.Store).Authenticate" 0 3) nil)
+                                                 (= (callresult "(*main.webSessionFactory).Generate" 0 0) 200))
+                                            (= (select hstatus w) 200)))
+  (ensures token-only-on-success (=> (not (= (select hstatus w) 200)) (= issued (old issued))))
+  (ensures responded-once (= (select hwrites w) (+ 1 (select (old hwrites) w)))))
+*/
+/*@
+(func "main.handleWebAdd"
+  (props C06)
+  (modifies hstatus hwrites now)
+  (requires has-cipher (not (= (. sessions aesgcm) nil)))
+  (callsite "(*main.webSessionFactory).Check" 0
+    (requires token-from-request (and (= $0 sessions) (= $1 (. (local reqdata) Session)) (not (= $1 "")))))
+  (callsite "(*main.Store).Add" 0
+    (requires admin-session (and (called "(*main.webSessionFactory).Check" 0) (= (callresult "(*main.webSessionFactory).Check" 0 0) 200) (callresult "(*main.webSessionFactory).Check" 0 3)))
+    (requires nonempty-fields (and (not (= (. (local reqdata) Username) "")) (not (= (. (local reqdata) Password) ""))))
+    (requires arguments-from-request (and (= $1 (. (local reqdata) Username)) (= $2 (. (local reqdata) Password)) (= $3 (. (local reqdata) IsAdmin)))))
+  (ensures success-only-if-done (=> (= (select hstatus w) 200)
+      (and (called "(*main.Store).Add" 0) (= (callresult "(*main.Store).Add" 0 0) nil))))
+  (ensures done-implies-success (=> (and (called "(*main.Store).Add" 0) (= (callresult "(*main.Store).Add" 0 0) nil)) (= (select hstatus w) 200)))
+  (ensures responded-once (= (select hwrites w) (+ 1 (select (old hwrites) w)))))
+
+(func "main.handleWebRemove"
+  (props C06)
+  (modifies hstatus hwrites now)
+  (requires has-cipher (not (= (. sessions aesgcm) nil)))
+  (callsite "(*main.webSessionFactory).Check" 0
+    (requires token-from-request (and (= $0 sessions) (= $1 (. (local reqdata) Session)) (not (= $1 "")))))
+  (callsite "(*main.Store).Remove" 0
+    (requires admin-session (and (called "(*main.webSessionFactory).Check" 0) (= (callresult "(*main.webSessionFactory).Check" 0 0) 200) (callresult "(*main.webSessionFactory).Check" 0 3)))
+    (requires nonempty-fields (not (= (. (local reqdata) Username) "")))
+    (requires arguments-from-request (= $1 (. (local reqdata) Username))))
+  (ensures success-only-if-done (=> (= (select hstatus w) 200)
+      (and (called "(*main.Store).Remove" 0) (= (callresult "(*main.Store).Remove" 0 0) nil))))
+  (ensures done-implies-success (=> (and (called "(*main.Store).Remove" 0) (= (callresult "(*main.Store).Remove" 0 0) nil)) (= (select hstatus w) 200)))
+  (ensures responded-once (= (select hwrites w) (+ 1 (select (old hwrites) w)))))
+
+(func "main.handleWebSetAdmin"
+  (props C06)
+  (modifies hstatus hwrites now)
+  (requires has-cipher (not (= (. sessions aesgcm) nil)))
+  (callsite "(*main.webSessionFactory).Check" 0
+    (requires token-from-request (and (= $0 sessions) (= $1 (. (local reqdata) Session)) (not (= $1 "")))))
+  (callsite "(*main.Store).SetAdmin" 0
+    (requires admin-session (and (called "(*main.webSessionFactory).Check" 0) (= (callresult "(*main.webSessionFactory).Check" 0 0) 200) (callresult "(*main.webSessionFactory).Check" 0 3)))
+    (requires nonempty-fields (not (= (. (local reqdata) Username) "")))
+    (requires arguments-from-request (and (= $1 (. (local reqdata) Username)) (= $2 (. (local reqdata) IsAdmin)))))
+  (ensures success-only-if-done (=> (= (select hstatus w) 200)
+      (and (called "(*main.Store).SetAdmin" 0) (= (callresult "(*main.Store).SetAdmin" 0 0) nil))))
+  (ensures done-implies-success (=> (and (called "(*main.Store).SetAdmin" 0) (= (callresult "(*main.Store).SetAdmin" 0 0) nil)) (= (select hstatus w) 200)))
+  (ensures responded-once (= (select hwrites w) (+ 1 (select (old hwrites) w)))))
+
+(func "main.handleWebList"
+  (props C06)
+  (modifies hstatus hwrites now)
+  (requires has-cipher (not (= (. sessions aesgcm) nil)))
+  (callsite "(*main.webSessionFactory).Check" 0
+    (requires token-from-request (and (= $0 sessions) (= $1 (. (local reqdata) Session)) (not (= $1 "")))))
+  (callsite "(*main.Store).List" 0
+    (requires admin-session (and (called "(*main.webSessionFactory).Check" 0) (= (callresult "(*main.webSessionFactory).Check" 0 0) 200) (callresult "(*main.webSessionFactory).Check" 0 3)))
+    (requires nonempty-fields true)
+    (requires arguments-from-request true))
+  (ensures success-only-if-done (=> (= (select hstatus w) 200)
+      (and (called "(*main.Store).List" 0) (= (callresult "(*main.Store).List" 0 1) nil))))
+  (ensures done-implies-success (=> (and (called "(*main.Store).List" 0) (= (callresult "(*main.Store).List" 0 1) nil)) (= (select hstatus w) 200)))
+  (ensures responded-once (= (select hwrites w) (+ 1 (select (old hwrites) w))))
+  (callsite "main.sendWebResponse" *
+    (requires list-only-to-admin-session (=> (not (= (. (boxed $2) List) nil))
+        (and (called "(*main.webSessionFactory).Check" 0) (= (callresult "(*main.webSessionFactory).Check" 0 0) 200)
+             (callresult "(*main.webSessionFactory).Check" 0 3)
+             (called "(*main.Store).List" 0) (= (. (boxed $2) List) (callresult "(*main.Store).List" 0 0)))))
+    (requires success-carries-store-list (=> (= $1 200) (and (called "(*main.Store).List" 0) (= (. (boxed $2) List) (callresult "(*main.Store).List" 0 0)))))))
+
+(func "main.handleWebListFull"
+  (props C06)
+  (modifies hstatus hwrites now)
+  (requires has-cipher (not (= (. sessions aesgcm) nil)))
+  (callsite "(*main.webSessionFactory).Check" 0
+    (requires token-from-request (and (= $0 sessions) (= $1 (. (local reqdata) Session)) (not (= $1 "")))))
+  (callsite "(*main.Store).ListFull" 0
+    (requires admin-session (and (called "(*main.webSessionFactory).Check" 0) (= (callresult "(*main.webSessionFactory).Check" 0 0) 200) (callresult "(*main.webSessionFactory).Check" 0 3)))
+    (requires nonempty-fields true)
+    (requires arguments-from-request true))
+  (ensures success-only-if-done (=> (= (select hstatus w) 200)
+      (and (called "(*main.Store).ListFull" 0) (= (callresult "(*main.Store).ListFull" 0 1) nil))))
+  (ensures done-implies-success (=> (and (called "(*main.Store).ListFull" 0) (= (callresult "(*main.Store).ListFull" 0 1) nil)) (= (select hstatus w) 200)))
+  (ensures responded-once (= (select hwrites w) (+ 1 (select (old hwrites) w))))
+  (callsite "main.sendWebResponse" *
+    (requires list-only-to-admin-session (=> (not (= (. (boxed $2) List) nil))
+        (and (called "(*main.webSessionFactory).Check" 0) (= (callresult "(*main.webSessionFactory).Check" 0 0) 200)
+             (callresult "(*main.webSessionFactory).Check" 0 3)
+             (called "(*main.Store).ListFull" 0) (= (. (boxed $2) List) (callresult "(*main.Store).ListFull" 0 0)))))
+    (requires success-carries-store-list (=> (= $1 200) (and (called "(*main.Store).ListFull" 0) (= (. (boxed $2) List) (callresult "(*main.Store).ListFull" 0 0)))))))
+
+(func "main.handleWebUpdate"
+  (props C06 C12)
+  (modifies hstatus hwrites now)
+  (requires has-cipher (not (= (. sessions aesgcm) nil)))
+  (callsite "(*main.webSessionFactory).Check" 0
+    (requires token-from-request (and (= $0 sessions) (= $1 (. (local reqdata) Session)) (not (= $1 "")))))
+  (callsite "(*main.Store).Authenticate" 0
+    (requires old-password-of-that-user (and (= $1 (. (local reqdata) Username)) (= $2 (. (local reqdata) OldPassword))
+                                             (not (= $1 "")) (not (= $2 "")))))
+  (callsite "(*main.Store).Update" 0
+    (requires authorised (or
+        (and (not (= (. (local reqdata) Session) "")) (= (. (local reqdata) OldPassword) "")
+             (called "(*main.webSessionFactory).Check" 0) (= (callresult "(*main.webSessionFactory).Check" 0 0) 200)
+             (or (callresult "(*main.webSessionFactory).Check" 0 3) (= (callresult "(*main.webSessionFactory).Check" 0 2) (. (local reqdata) Username))))
+        (and (= (. (local reqdata) Session) "") (not (= (. (local reqdata) OldPassword) ""))
+             (called "(*main.Store).Authenticate" 0) (callresult "(*main.Store).Authenticate" 0 0) (= (callresult "(*main.Store).Authenticate" 0 3) nil))))
+    (requires exactly-one-credential (not (= (= (. (local reqdata) Session) "") (= (. (local reqdata) OldPassword) ""))))
+    (requires arguments-from-request (and (= $1 (. (local reqdata) Username)) (= $2 (. (local reqdata) NewPassword))
+                                          (not (= $1 "")) (not (= $2 "")))))
+  (ensures success-only-if-authorised (=> (= (select hstatus w) 200)
+      (or (and (called "(*main.Store).Update" 0) (= (callresult "(*main.Store).Update" 0 0) nil))
+          (and (not (called "(*main.Store).Update" 0)) (called "(*main.Store).Authenticate" 0) (callresult "(*main.Store).Authenticate" 0 0) (= (callresult "(*main.Store).Authenticate" 0 3) nil)
+               (= (. (local reqdata) NewPassword) "")))))
+  (ensures done-implies-success (=> (and (called "(*main.Store).Update" 0) (= (callresult "(*main.Store).Update" 0 0) nil)) (= (select hstatus w) 200)))
+  (ensures responded-once (= (select hwrites w) (+ 1 (select (old hwrites) w)))))
+*/
+
+/*@
+; ============================ the agent's store object (C04 C12 C17 C18 C19) ========================
+
+(ghost sent.Notify Int)        ; change notifications sent to the hooks caller
+(ghost sent.upgradeChan Int)   ; hash-upgrade requests queued
+(ghost sent.NewStore Int)
+(ghost spawned Int)            ; goroutines started
+
+; "the configured policy accepts this password for this user": the verdict of PolicyChecker.Check
+(uf policyok (Int String String) Bool)
+(iface "main.PolicyChecker.Check" (p password username)
+  (ensures verdict (= (and $r0 (= $r1 nil)) (policyok p password username))))
+
+(func "(*main.store).authenticate"
+  (props C04 C12)
+  (requires has-dir (not (= (. s dir) nil)))
+  (modifies sent.upgradeChan)
+  (callsite "(*store.Dir).Authenticate" 0
+    (requires exact-credentials (and (= $0 (. s dir)) (= $1 username) (= $2 password))))
+  (send "upgradeChan" 0
+    (requires only-successful-upgradeable-login (and (. (local result) ok) (. (local result) upgradeable)
+                                                     (not (= (. s upgradeChan) nil)) (= $ch (. s upgradeChan))))
+    (requires same-credentials (and (= (. $v username) username) (= (. $v password) password) (= (. $v response) nil))))
+  (ensures result-is-the-stores (and
+      (= (. result ok) (callresult "(*store.Dir).Authenticate" 0 0))
+      (= (. result isAdmin) (callresult "(*store.Dir).Authenticate" 0 1))
+      (= (. result upgradeable) (callresult "(*store.Dir).Authenticate" 0 2))
+      (= (. result lastChanged) (callresult "(*store.Dir).Authenticate" 0 3))
+      (= (. result err) (callresult "(*store.Dir).Authenticate" 0 4))))
+  (ensures upgrades-off-sends-nothing (=> (= (. s upgradeChan) nil) (= sent.upgradeChan (old sent.upgradeChan))))
+  (ensures failed-login-sends-nothing (=> (not (. result ok)) (= sent.upgradeChan (old sent.upgradeChan))))
+  (ensures error-is-denial (props C04 C06) (=> (not (= (. result err) nil)) (not (. result ok)))))
+
+(func "(*main.store).add"
+  (props C17 C19)
+  (requires has-dir (and (not (= (. s dir) nil)) (not (= (. s hooks) nil))))
+  (modifies sent.Notify)
+  (callsite "(*store.Dir).AddUser" 0
+    (requires policy-accepted (policyok (. s policy) $2 $1))
+    (requires arguments (and (= $0 (. s dir)) (= $1 username) (= $2 password) (= $3 isAdmin))))
+  (send "Notify" 0
+    (requires only-after-success (and (called "(*store.Dir).AddUser" 0) (= (callresult "(*store.Dir).AddUser" 0 0) nil))))
+  (ensures refused-means-error-and-no-write (=> (not (policyok (. s policy) password username))
+      (and (not (= (. result err) nil)) (not (called "(*store.Dir).AddUser" 0)))))
+  (ensures accepted-is-not-refused (=> (policyok (. s policy) password username)
+      (and (called "(*store.Dir).AddUser" 0) (= (. result err) (callresult "(*store.Dir).AddUser" 0 0)))))
+  (ensures notified-iff-success (= sent.Notify (+ (old sent.Notify)
+      (ite (and (called "(*store.Dir).AddUser" 0) (= (. result err) nil)) 1 0)))))
+
+(func "(*main.store).update"
+  (props C17 C19 C12)
+  (requires has-dir (and (not (= (. s dir) nil)) (not (= (. s hooks) nil))))
+  (modifies sent.Notify)
+  (callsite "(*store.Dir).UpdateUser" 0
+    (requires policy-accepted (policyok (. s policy) $2 $1))
+    (requires arguments (and (= $0 (. s dir)) (= $1 username) (= $2 password))))
+  (send "Notify" 0
+    (requires only-after-success (and (called "(*store.Dir).UpdateUser" 0) (= (callresult "(*store.Dir).UpdateUser" 0 0) nil))))
+  (ensures refused-means-error-and-no-write (=> (not (policyok (. s policy) password username))
+      (and (not (= (. result err) nil)) (not (called "(*store.Dir).UpdateUser" 0)))))
+  (ensures accepted-is-not-refused (=> (policyok (. s policy) password username)
+      (and (called "(*store.Dir).UpdateUser" 0) (= (. result err) (callresult "(*store.Dir).UpdateUser" 0 0)))))
+  (ensures notified-iff-success (= sent.Notify (+ (old sent.Notify)
+      (ite (and (called "(*store.Dir).UpdateUser" 0) (= (. result err) nil)) 1 0)))))
+
+(func "(*main.store).init"
+  (props C17)
+  (requires has-dir (not (= (. s dir) nil)))
+  (callsite "(*store.Dir).Init" 0
+    (requires policy-accepted (policyok (. s policy) $2 $1))
+    (requires arguments (and (= $0 (. s dir)) (= $1 username) (= $2 password))))
+  (ensures refused-means-error-and-no-write (=> (not (policyok (. s policy) password username))
+      (and (not (= (. result err) nil)) (not (called "(*store.Dir).Init" 0)))))
+  (ensures accepted-is-not-refused (=> (policyok (. s policy) password username)
+      (and (called "(*store.Dir).Init" 0) (= (. result err) (callresult "(*store.Dir).Init" 0 0))))))
+
+(func "(*main.store).remove"
+  (props C19)
+  (requires has-dir (and (not (= (. s dir) nil)) (not (= (. s hooks) nil))))
+  (modifies sent.Notify)
+  (callsite "(*store.Dir).RemoveUser" 0 (requires arguments (and (= $0 (. s dir)) (= $1 username))))
+  (ensures notified (= sent.Notify (+ (old sent.Notify) 1))))
+
+(func "(*main.store).setAdmin"
+  (props C19)
+  (requires has-dir (and (not (= (. s dir) nil)) (not (= (. s hooks) nil))))
+  (modifies sent.Notify)
+  (callsite "(*store.Dir).SetAdmin" 0 (requires arguments (and (= $0 (. s dir)) (= $1 username) (= $2 isAdmin))))
+  (send "Notify" 0
+    (requires only-after-success (and (called "(*store.Dir).SetAdmin" 0) (= (callresult "(*store.Dir).SetAdmin" 0 0) nil))))
+  (ensures result-is-the-stores (= (. result err) (callresult "(*store.Dir).SetAdmin" 0 0)))
+  (ensures notified-iff-success (= sent.Notify (+ (old sent.Notify) (ite (= (. result err) nil) 1 0)))))
+*/
+
+/*@
+(func "(*main.store).dispatchRequests"
+  (props C04 C17 C18 C12)
+  (requires complete (and (not (= (. s dir) nil)) (not (= (. s hooks) nil))))
+  (noframe)
+  (callsite "(*main.store).init" 0 (requires arguments-are-the-requests (and (= $0 s) (= $1 (. (local req) username)) (= $2 (. (local req) password)))))
+  (send "response" 0 (requires answers-with-this-requests-result (and (called "(*main.store).init" 0) (= $ch (. (local req) response)) (= (. $v err) (. (callresult "(*main.store).init" 0 0) err)))))
+  (send "response" 1 (requires answers-with-this-requests-result (and (called "(*main.store).check" 0) (= $ch (. (local req) response)) (= (. $v err) (. (callresult "(*main.store).check" 0 0) err)))))
+  (callsite "(*main.store).add" 0 (requires arguments-are-the-requests (and (= $0 s) (= $1 (. (local req) username)) (= $2 (. (local req) password)) (= $3 (. (local req) isAdmin)))))
+  (send "response" 2 (requires answers-with-this-requests-result (and (called "(*main.store).add" 0) (= $ch (. (local req) response)) (= (. $v err) (. (callresult "(*main.store).add" 0 0) err)))))
+  (callsite "(*main.store).remove" 0 (requires arguments-are-the-requests (and (= $0 s) (= $1 (. (local req) username)))))
+  (send "response" 3 (requires answers-with-this-requests-result (and (called "(*main.store).remove" 0) (= $ch (. (local req) response)) (= (. $v err) (. (callresult "(*main.store).remove" 0 0) err)))))
+  (callsite "(*main.store).update" 0 (requires arguments-are-the-requests (and (= $0 s) (= $1 (. (local req) username)) (= $2 (. (local req) password)))))
+  (callsite "(*main.store).update" 1 (requires upgrade-uses-login-credentials (and (= $0 s) (= $1 (. (local req) username)) (= $2 (. (local req) password)) (= (. (local req) response) nil))))
+  (send "response" 4 (requires answers-with-this-requests-result (and (called "(*main.store).update" 0) (= $ch (. (local req) response)) (= (. $v err) (. (callresult "(*main.store).update" 0 0) err)))))
+  (callsite "(*main.store).setAdmin" 0 (requires arguments-are-the-requests (and (= $0 s) (= $1 (. (local req) username)) (= $2 (. (local req) isAdmin)))))
+  (send "response" 5 (requires answers-with-this-requests-result (and (called "(*main.store).setAdmin" 0) (= $ch (. (local req) response)) (= (. $v err) (. (callresult "(*main.store).setAdmin" 0 0) err)))))
+  (send "response" 6 (requires answers-with-this-requests-result (and (called "(*main.store).list" 0) (= $ch (. (local req) response)) (= (. $v list) (. (callresult "(*main.store).list" 0 0) list)) (= (. $v err) (. (callresult "(*main.store).list" 0 0) err)))))
+  (send "response" 7 (requires answers-with-this-requests-result (and (called "(*main.store).listFull" 0) (= $ch (. (local req) response)) (= (. $v list) (. (callresult "(*main.store).listFull" 0 0) list)) (= (. $v err) (. (callresult "(*main.store).listFull" 0 0) err)))))
+  (callsite "(*main.store).authenticate" 0 (requires arguments-are-the-requests (and (= $0 s) (= $1 (. (local req) username)) (= $2 (. (local req) password)))))
+  (send "response" 8 (requires answers-with-this-requests-result (and (called "(*main.store).authenticate" 0) (= $ch (. (local req) response)) (= (. $v ok) (. (callresult "(*main.store).authenticate" 0 0) ok)) (= (. $v isAdmin) (. (callresult "(*main.store).authenticate" 0 0) isAdmin)) (= (. $v upgradeable) (. (callresult "(*main.store).authenticate" 0 0) upgradeable)) (= (. $v lastChanged) (. (callresult "(*main.store).authenticate" 0 0) lastChanged)) (= (. $v err) (. (callresult "(*main.store).authenticate" 0 0) err)))))
+  (loop 0 (invariant complete (and (not (= (. s dir) nil)) (not (= (. s hooks) nil))))))
+
+(func "(*main.store).reload"
+  (props C18 C19)
+  (requires complete (and (not (= (. s dir) nil)) (not (= (. s hooks) nil))))
+  (modifies (. s dir) sent.NewStore)
+  (send "NewStore" 0
+    (requires only-after-successful-switch (and (= (callresult "store.NewDirFromConfig" 0 1) nil)
+                                                (= (callresult "(*store.Dir).Check" 0 0) nil)
+                                                (= $v (. (callresult "store.NewDirFromConfig" 0 0) BaseDir)))))
+  (callsite "(*store.Dir).Check" 0 (requires checks-the-new-dir (= $0 (callresult "store.NewDirFromConfig" 0 0))))
+  (callsite "store.NewDirFromConfig" 0 (requires same-config-file (= $0 (. s configfile))))
+  (ensures all-or-nothing (or (= (. s dir) (old (. s dir)))
+      (and (called "store.NewDirFromConfig" 0) (= (callresult "store.NewDirFromConfig" 0 1) nil)
+           (= (. s dir) (callresult "store.NewDirFromConfig" 0 0))
+           (called "(*store.Dir).Check" 0) (= (callresult "(*store.Dir).Check" 0 0) nil))))
+  (ensures failure-keeps-old (=> (or (not (= (callresult "store.NewDirFromConfig" 0 1) nil))
+                                     (not (called "(*store.Dir).Check" 0))
+                                     (not (= (callresult "(*store.Dir).Check" 0 0) nil)))
+                                 (and (= (. s dir) (old (. s dir))) (= sent.NewStore (old sent.NewStore)))))
+  (ensures still-complete (and (not (= (. s dir) nil)) (= (. s hooks) (old (. s hooks))))))
+
+(func "(*main.store).check" (props C16 C18)
+  (requires has-dir (not (= (. s dir) nil)))
+  (callsite "(*store.Dir).Check" 0 (requires the-served-dir (= $0 (. s dir))))
+  (ensures result-is-the-stores (= (. result err) (callresult "(*store.Dir).Check" 0 0))))
+(func "(*main.store).list" (props C06)
+  (requires has-dir (not (= (. s dir) nil)))
+  (ensures result-is-the-stores (and (= (. result list) (callresult "(*store.Dir).List" 0 0)) (= (. result err) (callresult "(*store.Dir).List" 0 1)))))
+(func "(*main.store).listFull" (props C06)
+  (requires has-dir (not (= (. s dir) nil)))
+  (ensures result-is-the-stores (and (= (. result list) (callresult "(*store.Dir).ListFull" 0 0)) (= (. result err) (callresult "(*store.Dir).ListFull" 0 1)))))
+*/
+
+/*@
+; ============================ other frontends (C04) ==================================================
+
+(func "main.callback"
+  (props C04 C15)
+  (callsite "(*main.Store).Authenticate" 0 (requires exact-credentials (and (= $0 store) (= $1 login) (= $2 password))))
+  (ensures accept-iff-store-accepts (= ok (and (callresult "(*main.Store).Authenticate" 0 0) (= (callresult "(*main.Store).Authenticate" 0 3) nil))))
+  (ensures error-is-denial (=> (not (= (callresult "(*main.Store).Authenticate" 0 3) nil)) (and (not ok) (not (= err nil))))))
+
+(func "main.runSaslAuthSocket$1"
+  (props C04)
+  (callsite "main.callback" 0 (requires fields-in-order (and (= $0 log) (= $1 pwd) (= $2 srv) (= $3 rlm) (= $5 (deref store)))))
+  (ensures returns-callbacks-verdict (and (= $r0 (callresult "main.callback" 0 0)) (= $r1 (callresult "main.callback" 0 1))
+                                          (= $r2 (callresult "main.callback" 0 2)))))
+
+(func "main.runSaslAuthSocketListener$1"
+  (props C04)
+  (callsite "main.callback" 0 (requires fields-in-order (and (= $0 log) (= $1 pwd) (= $2 srv) (= $3 rlm) (= $5 (deref store)))))
+  (ensures returns-callbacks-verdict (and (= $r0 (callresult "main.callback" 0 0)) (= $r1 (callresult "main.callback" 0 1))
+                                          (= $r2 (callresult "main.callback" 0 2)))))
+
+(func "(main.ldapHandler).Bind"
+  (props C04 C15)
+  (callsite "(*main.Store).Authenticate" 0
+    (requires name-up-to-first-at (and (= $0 (. h store)) (= $1 (callresult "strings.Cut" 0 0)) (= $2 bindSimplePw)))
+    (requires cut-at-at-sign (or (and (str.contains bindDN "@") (= bindDN (str.++ $1 "@" (callresult "strings.Cut" 0 1))) (not (str.contains $1 "@")))
+                                 (and (not (str.contains bindDN "@")) (= $1 bindDN)))))
+  (ensures accept-iff-store-accepts (= (= $r0 0) (callresult "(*main.Store).Authenticate" 0 0)))
+  (ensures denial-code (or (= $r0 0) (= $r0 49))))
+
+(func "main.cmdAuthenticate"
+  (props C04 C16)
+  (noframe)
+  (callsite "(*main.Store).Authenticate" 0 (requires given-credentials (and (= $1 (local username)) (= $2 (local password)) (not (= $1 "")))))
+  (callsite "main.openAndCheck" 0 (requires first (not (called "(*main.Store).Authenticate" 0))))
+  (ensures exit-0-iff-accepted (=> (called "(*main.Store).Authenticate" 0)
+      (= (= (exitcode $r0) 0) (and (callresult "(*main.Store).Authenticate" 0 0) (= (callresult "(*main.Store).Authenticate" 0 3) nil)))))
+  (ensures exit-3-on-error (=> (and (called "(*main.Store).Authenticate" 0) (not (= (callresult "(*main.Store).Authenticate" 0 3) nil))) (= (exitcode $r0) 3)))
+  (ensures exit-1-on-wrong-password (=> (and (called "(*main.Store).Authenticate" 0) (= (callresult "(*main.Store).Authenticate" 0 3) nil) (not (callresult "(*main.Store).Authenticate" 0 0))) (= (exitcode $r0) 1)))
+  (ensures store-not-opened-means-3 (=> (not (= (callresult "main.openAndCheck" 0 1) nil)) (and (= (exitcode $r0) 3) (not (called "(*main.Store).Authenticate" 0))))))
+*/
+
+/*@
+; ============================ password policy (C17) ===================================================
+
+(fnconst zfScore "main.zxcvbnConditionScore")
+(fnconst zfEntropy "main.zxcvbnConditionEntropy")
+(fnconst zfTime "main.zxcvbnConditionTime")
+(typeconst tyNullPolicy "main.nullPolicy")
+(typeconst tyZxcvbnPolicy "main.zxcvbnPolicy")
+(uf |box main.zxcvbnPolicy.condition| (Int) Int)
+(uf |box main.zxcvbnPolicy.threshold| (Int) Int)
+
+; what "the condition holds" means for each of the three comparators
+(spec (zcond (f Int) (sc Int) (en Real) (ct Real) (thr Int)) Bool
+  (ite (= f zfScore) (>= sc thr) (ite (= f zfEntropy) (>= en (to_real thr)) (ite (= f zfTime) (>= ct (to_real thr)) false))))
+(spec (zwf (f Int) (thr Int)) Bool
+  (and (or (= f zfScore) (= f zfEntropy) (= f zfTime)) (<= 0 thr) (=> (= f zfScore) (<= thr 4))))
+
+; definition of policyok per implementation of PolicyChecker (the verdict each implementation must compute)
+(axiom policyok-def
+  (forall ((p Int) (pw String) (u String)) (! (and
+      (=> (= (dyntype p) tyNullPolicy) (policyok p pw u))
+      (=> (= (dyntype p) tyZxcvbnPolicy)
+          (= (policyok p pw u) (zcond (|box main.zxcvbnPolicy.condition| p) (zx_score pw u "whawty") (zx_entropy pw u "whawty") (zx_time pw u "whawty")
+                                      (|box main.zxcvbnPolicy.threshold| p)))))
+    :pattern ((policyok p pw u)))))
+
+(func "main.zxcvbnConditionScore" (props C17)
+  (ensures is-ge (=> (<= threshold 9223372036854775807) (= $r0 (zcond zfScore (. score Score) (. score Entropy) (. score CrackTime) threshold)))))
+(func "main.zxcvbnConditionEntropy" (props C17)
+  (ensures is-ge (= $r0 (zcond zfEntropy (. score Score) (. score Entropy) (. score CrackTime) threshold))))
+(func "main.zxcvbnConditionTime" (props C17)
+  (ensures is-ge (= $r0 (zcond zfTime (. score Score) (. score Entropy) (. score CrackTime) threshold))))
+
+; assumed for calls through zxcvbnPolicy.condition: the stored function is one of the three above (zwf), each of which is verified
+(functype "func(score scoring.MinEntropyMatch, threshold uint64) bool" (score threshold)
+  (requires one-of-the-three (zwf $fn threshold))
+  (ensures verdict (= $r0 (zcond $fn (. score Score) (. score Entropy) (. score CrackTime) threshold))))
+
+(func "(main.zxcvbnPolicy).Check" (props C17)
+  (requires well-formed (zwf (. z condition) (. z threshold)))
+  (ensures verdict (and (= err nil)
+      (= result (zcond (. z condition) (zx_score password username "whawty") (zx_entropy password username "whawty")
+                       (zx_time password username "whawty") (. z threshold))))))
+
+(func "(main.nullPolicy).Check" (props C17)
+  (ensures accepts-everything (and result (= err nil))))
+
+(func "main.newZXCVBNPolicy" (props C17)
+  (use decimals)
+  (ensures accepted-grammar (= (= err nil)
+      (and (= (fields_n condition) 3) (= (fields_at condition 1) ">=") (isudec64 (fields_at condition 2))
+           (or (and (= (fields_at condition 0) "score") (<= (uatoi (fields_at condition 2)) 4))
+               (= (fields_at condition 0) "entropy") (= (fields_at condition 0) "time")))))
+  (ensures built (=> (= err nil)
+      (and (= (. p threshold) (uatoi (fields_at condition 2)))
+           (= (. p condition) (ite (= (fields_at condition 0) "score") zfScore (ite (= (fields_at condition 0) "entropy") zfEntropy zfTime)))
+           (zwf (. p condition) (. p threshold))))))
+
+(func "main.NewPasswordPolicy" (props C17)
+  (use policyok-def dyntype)
+  (ensures no-policy (=> (= policyType "") (and (= err nil) (= (dyntype p) tyNullPolicy))))
+  (ensures zxcvbn (=> (= policyType "zxcvbn")
+      (and (= err (callresult "main.newZXCVBNPolicy" 0 1))
+           (=> (= err nil) (and (= (dyntype p) tyZxcvbnPolicy)
+                                (zwf (|box main.zxcvbnPolicy.condition| p) (|box main.zxcvbnPolicy.threshold| p)))))))
+  (ensures unknown-type-is-an-error (=> (and (not (= policyType "")) (not (= policyType "zxcvbn"))) (not (= err nil)))))
+
+; ============================ agent construction (C12 C16 C17 C18) ==================================
+
+(func "main.NewHooksCaller" (props C19) (noframe)
+  (ensures returns-object (=> (= err nil) (not (isnil h)))))
+(func "main.runRemoteUpgrader" (props C12) (noframe))
+
+(func "main.NewStore"
+  (props C12 C17 C18)
+  (noframe)
+  (callsite "(*main.store).dispatchRequests" 0
+    (requires only-a-completely-built-store (and (= (callresult "store.NewDirFromConfig" 0 1) nil)
+                                                 (= (callresult "main.NewPasswordPolicy" 0 1) nil)
+                                                 (= (callresult "main.NewHooksCaller" 0 1) nil))))
+  (callsite "main.NewPasswordPolicy" 0 (requires configured-policy (and (= $0 policyType) (= $1 policyCondition))))
+  (callsite "store.NewDirFromConfig" 0 (requires configured-store (= $0 configfile)))
+  (ensures policy-error-stops-the-agent (=> (and (called "main.NewPasswordPolicy" 0) (not (= (callresult "main.NewPasswordPolicy" 0 1) nil)))
+                                            (not (= err nil))))
+  (ensures config-error-stops-the-agent (=> (not (= (callresult "store.NewDirFromConfig" 0 1) nil)) (not (= err nil))))
+  (ensures built-object (=> (= err nil)
+      (and (not (isnil s)) (not (= (. s dir) nil)) (not (= (. s hooks) nil)) (= (. s configfile) configfile))))
+  (ensures built (=> (= err nil)
+      (and (= (. s dir) (callresult "store.NewDirFromConfig" 0 0))
+           (= (. s policy) (callresult "main.NewPasswordPolicy" 0 0))
+           (= (. s configfile) configfile))))
+  (ensures upgrades-off (=> (and (= err nil) (= doUpgrades "")) (= (. s upgradeChan) nil)))
+  (ensures upgrades-local (=> (and (= err nil) (= doUpgrades "local")) (= (. s upgradeChan) (. s updateChan)))))
+
+(func "main.openAndCheck"
+  (props C16 C04)
+  (noframe)
+  (callsite "(*cli.Context).GlobalBool" 0 (requires do-check-flag (= $1 "do-check")))
+  (ensures checked-unless-disabled (=> (and (= $r1 nil) (callresult "(*cli.Context).GlobalBool" 0 0))
+      (and (called "(*main.Store).Check" 0) (= (callresult "(*main.Store).Check" 0 0) nil))))
+  (ensures store-error-propagates (=> (not (= (callresult "main.NewStore" 0 1) nil)) (not (= $r1 nil))))
+  (ensures returns-object (=> (= $r1 nil) (not (isnil $r0)))))
+*/
